@@ -21,6 +21,13 @@ import ast
 _WRAPPERS = {"hash256", "sha256", "hash160", "encode_varstr", "hash_tapsighash", "hash_tapleaf", "hash_tapbranch", "hash_keyagglist"}
 
 
+_BUILTIN_CONSUMERS = {"bytes", "bytearray", "sorted", "set", "frozenset", "list", "tuple", "sum", "any", "all", "len", "max", "min", "dict", "reversed", "enumerate", "zip"}
+
+
+def _is_empty_bytes(e):
+    return isinstance(e, ast.Constant) and e.value == b""
+
+
 def _is_empty_sep(e):
     return isinstance(e, ast.Constant) and e.value in (b"", "")
 
@@ -74,11 +81,57 @@ class Desugar(ast.NodeTransformer):
         for a in n.args.posonlyargs + n.args.args + n.args.kwonlyargs:
             cnt[a.arg] = cnt.get(a.arg, 0) + 1
         self.outside = cnt
+        self._parts_lists(n)
         self.generic_visit(n)
         self.outside, self.k = saved
         return n
 
+    def _parts_lists(self, fn):
+        """`parts = [a, b]; parts.append(c); parts.extend(E for v in it); return b"".join(parts)` is the accumulator
+        `parts = a + b; parts += c; for v in it: parts += E; return parts` (same bytes)."""
+        # candidate names: assigned exactly once, from a list literal
+        assigns = {}
+        for x in ast.walk(fn):
+            if isinstance(x, ast.Assign) and len(x.targets) == 1 and isinstance(x.targets[0], ast.Name):
+                assigns.setdefault(x.targets[0].id, []).append(x)
+        for name, sts in assigns.items():
+            if len(sts) != 1 or not isinstance(sts[0].value, ast.List) or any(isinstance(e, ast.Starred) for e in sts[0].value.elts):
+                continue
+            uses = [x for x in ast.walk(fn) if isinstance(x, ast.Name) and x.id == name]
+            ok_nodes = set()
+            joins, sep = [], None
+            bad = False
+            for x in ast.walk(fn):
+                if isinstance(x, ast.Expr) and isinstance(x.value, ast.Call) and isinstance(x.value.func, ast.Attribute) and isinstance(x.value.func.value, ast.Name) \
+                        and x.value.func.value.id == name and x.value.func.attr in ("append", "extend") and len(x.value.args) == 1 and not x.value.keywords:
+                    a = x.value.args[0]
+                    if any(isinstance(y, ast.Name) and y.id == name for y in ast.walk(a)):
+                        bad = True
+                    if x.value.func.attr == "extend" and not isinstance(a, (ast.List, ast.Tuple, ast.ListComp, ast.GeneratorExp)):
+                        bad = True
+                    ok_nodes.add(id(x.value.func.value))
+                elif isinstance(x, ast.Call) and isinstance(x.func, ast.Attribute) and x.func.attr == "join" and _is_empty_bytes(x.func.value) and len(x.args) == 1 \
+                        and isinstance(x.args[0], ast.Name) and x.args[0].id == name:
+                    joins.append(x)
+                    sep = x.func.value
+                    ok_nodes.add(id(x.args[0]))
+            ok_nodes.add(id(sts[0].targets[0]))
+            if bad or len(joins) != 1 or any(id(u) not in ok_nodes for u in uses):
+                continue
+            _PartsRewriter(name, sep, self).visit(fn)
+
     visit_AsyncFunctionDef = visit_FunctionDef
+
+    def visit_Call(self, n):
+        self.generic_visit(n)
+        # b"".join([a, b, c])  ->  a + b + c   (literal sequence of at least one element, no starred items)
+        if isinstance(n.func, ast.Attribute) and n.func.attr == "join" and _is_empty_sep(n.func.value) and len(n.args) == 1 and not n.keywords \
+                and isinstance(n.args[0], (ast.List, ast.Tuple)) and n.args[0].elts and not any(isinstance(e, ast.Starred) for e in n.args[0].elts):
+            e = n.args[0].elts[0]
+            for nxt in n.args[0].elts[1:]:
+                e = ast.copy_location(ast.BinOp(left=e, op=ast.Add(), right=nxt), n)
+            return e
+        return n
 
     # ------------------------------------------------------------------------------------
     def _loops(self, gens, inner, at):
@@ -146,7 +199,16 @@ class Desugar(ast.NodeTransformer):
                 r = self._expand(s.target.id, s.value, s, accumulate=True)
                 if r is not None:
                     return r
+        if isinstance(s, ast.Assign) and len(s.targets) == 1 and isinstance(s.targets[0], ast.Name):
+            r = self._concat(s.targets[0].id, s.value, s)
+            if r is not None:
+                return r
         if isinstance(s, ast.Return) and s.value is not None:
+            t0 = "_acc%d" % (self.k + 1) if self.k else "_acc"
+            r = self._concat(t0, s.value, s)
+            if r is not None:
+                self._fresh()
+                return r + [ast.copy_location(ast.Return(value=ast.Name(id=t0, ctx=ast.Load())), s)]
             if _comp_parts(s.value) is not None:
                 t = self._fresh()
                 r = self._expand(t, s.value, s)
@@ -158,10 +220,52 @@ class Desugar(ast.NodeTransformer):
                 return pre + [ast.copy_location(ast.Return(value=v2), s)]
         return [s]
 
+    def _concat(self, target, v, at):
+        """`a + b"".join(E for v in it) + c` computed into `target` left to right (None when no term is a join)"""
+        terms = []
+
+        def flat(e):
+            if isinstance(e, ast.BinOp) and isinstance(e.op, ast.Add):
+                flat(e.left)
+                flat(e.right)
+            else:
+                terms.append(e)
+        flat(v)
+        if len(terms) < 2 or not any((_comp_parts(t) or (None,))[0] == "join" for t in terms):
+            return None
+        if any(isinstance(x, ast.Name) and x.id == target for t in terms for x in ast.walk(t)):
+            return None
+        first = terms[0]
+        out = []
+        p0 = _comp_parts(first)
+        if p0 is not None and p0[0] == "join":
+            r = self._expand(target, first, at)
+            if r is None:
+                return None
+            out += r
+        else:
+            out.append(ast.copy_location(ast.Assign(targets=[ast.Name(id=target, ctx=ast.Store())], value=first, lineno=at.lineno), at))
+        for t in terms[1:]:
+            p = _comp_parts(t)
+            if p is not None and p[0] == "join":
+                r = self._expand(target, t, at, accumulate=True)
+                if r is None:
+                    return None
+                out += r
+            else:
+                out.append(ast.copy_location(ast.AugAssign(target=ast.Name(id=target, ctx=ast.Store()), op=ast.Add(), value=t), at))
+        return out
+
     def _hoist_arg(self, v, at):
         """`f(<comprehension>)` with the comprehension as the only argument of a plain call: bind it to a temporary first"""
+        def over_range(p):
+            g = p[2]
+            return len(g) == 1 and isinstance(g[0].iter, ast.Call) and isinstance(g[0].iter.func, ast.Name) and g[0].iter.func.id == "range"
         if isinstance(v, ast.Call) and len(v.args) == 1 and not v.keywords and _comp_parts(v.args[0]) is not None and _comp_parts(v) is None \
-                and isinstance(v.func, ast.Name) and v.func.id in _WRAPPERS and _comp_parts(v.args[0])[0] == "join":
+                and not any(isinstance(x, ast.Call) for x in ast.walk(v.func)) \
+                and ((isinstance(v.func, ast.Name) and v.func.id in _WRAPPERS and _comp_parts(v.args[0])[0] == "join")
+                     or (_comp_parts(v.args[0])[0] == "list" and over_range(_comp_parts(v.args[0]))
+                         and not (isinstance(v.func, ast.Name) and v.func.id in _BUILTIN_CONSUMERS))):
             t = self._fresh()
             r = self._expand(t, v.args[0], at)
             if r is not None:
@@ -183,6 +287,53 @@ class Desugar(ast.NodeTransformer):
         if isinstance(node, ast.Try):
             for h in node.handlers:
                 h.body = self._block(h.body)
+        return node
+
+
+class _PartsRewriter(ast.NodeTransformer):
+    def __init__(self, name, sep, owner):
+        self.name, self.sep, self.owner = name, sep, owner
+
+    def _acc(self, ctx):
+        return ast.Name(id=self.name, ctx=ctx)
+
+    def visit_Call(self, n):
+        self.generic_visit(n)
+        if isinstance(n.func, ast.Attribute) and n.func.attr == "join" and _is_empty_sep(n.func.value) and len(n.args) == 1 and isinstance(n.args[0], ast.Name) and n.args[0].id == self.name:
+            return ast.copy_location(self._acc(ast.Load()), n)
+        return n
+
+    def _stmts(self, stmts):
+        import copy
+        out = []
+        for s in stmts:
+            if isinstance(s, ast.Assign) and len(s.targets) == 1 and isinstance(s.targets[0], ast.Name) and s.targets[0].id == self.name and isinstance(s.value, ast.List):
+                v = copy.deepcopy(self.sep)
+                for e in s.value.elts:
+                    v = ast.copy_location(ast.BinOp(left=v, op=ast.Add(), right=e), s) if not _is_empty_sep(v) else e
+                out.append(ast.copy_location(ast.Assign(targets=[self._acc(ast.Store())], value=v, lineno=s.lineno), s))
+                continue
+            if isinstance(s, ast.Expr) and isinstance(s.value, ast.Call) and isinstance(s.value.func, ast.Attribute) and isinstance(s.value.func.value, ast.Name) \
+                    and s.value.func.value.id == self.name and s.value.func.attr in ("append", "extend"):
+                a = s.value.args[0]
+                if s.value.func.attr == "append":
+                    out.append(ast.copy_location(ast.AugAssign(target=self._acc(ast.Store()), op=ast.Add(), value=a), s))
+                elif isinstance(a, (ast.List, ast.Tuple)):
+                    for e in a.elts:
+                        out.append(ast.copy_location(ast.AugAssign(target=self._acc(ast.Store()), op=ast.Add(), value=e), s))
+                else:
+                    step = ast.copy_location(ast.AugAssign(target=self._acc(ast.Store()), op=ast.Add(), value=a.elt), s)
+                    out.extend(self.owner._loops(a.generators, [step], s))
+                continue
+            out.append(s)
+        return out
+
+    def generic_visit(self, node):
+        super().generic_visit(node)
+        for f in ("body", "orelse", "finalbody"):
+            v = getattr(node, f, None)
+            if isinstance(v, list) and v and isinstance(v[0], ast.stmt):
+                setattr(node, f, self._stmts(v))
         return node
 
 
